@@ -33,6 +33,8 @@ class SysLog:
         """
         self.hostname = hostname
         self.current_episode: int = 1
+        self.logger = None
+        "Set by setup_logger when system logs are being saved; a SysLog built while they were off never writes."
         self.setup_logger()
 
     def setup_logger(self):
@@ -105,7 +107,7 @@ class SysLog:
         if SIM_OUTPUT.sys_log_level > LogLevel.DEBUG:
             return
 
-        if SIM_OUTPUT.save_sys_logs:
+        if SIM_OUTPUT.save_sys_logs and self.logger is not None:
             self.logger.debug(msg)
         self._write_to_terminal(msg, "DEBUG", to_terminal)
 
@@ -119,7 +121,7 @@ class SysLog:
         if SIM_OUTPUT.sys_log_level > LogLevel.INFO:
             return
 
-        if SIM_OUTPUT.save_sys_logs:
+        if SIM_OUTPUT.save_sys_logs and self.logger is not None:
             self.logger.info(msg)
         self._write_to_terminal(msg, "INFO", to_terminal)
 
@@ -133,7 +135,7 @@ class SysLog:
         if SIM_OUTPUT.sys_log_level > LogLevel.WARNING:
             return
 
-        if SIM_OUTPUT.save_sys_logs:
+        if SIM_OUTPUT.save_sys_logs and self.logger is not None:
             self.logger.warning(msg)
         self._write_to_terminal(msg, "WARNING", to_terminal)
 
@@ -147,7 +149,7 @@ class SysLog:
         if SIM_OUTPUT.sys_log_level > LogLevel.ERROR:
             return
 
-        if SIM_OUTPUT.save_sys_logs:
+        if SIM_OUTPUT.save_sys_logs and self.logger is not None:
             self.logger.error(msg)
         self._write_to_terminal(msg, "ERROR", to_terminal)
 
@@ -161,6 +163,6 @@ class SysLog:
         if LogLevel.CRITICAL < SIM_OUTPUT.sys_log_level:
             return
 
-        if SIM_OUTPUT.save_sys_logs:
+        if SIM_OUTPUT.save_sys_logs and self.logger is not None:
             self.logger.critical(msg)
         self._write_to_terminal(msg, "CRITICAL", to_terminal)
